@@ -38,18 +38,18 @@ def _validate(args):
                    timeout=6000, xmx="3g", xss="1g")
 
 
-def generate(ctx, cfg, kind, simulate=None, depth=None, stride=1, thresholds=(0,), base=0):
+def generate(ctx, cfg, kind, simulate=None, depth=None, stride=1, thresholds=(0,), base=0, workers=None):
     """returns list of recorded traces"""
     wd = tlc.workdir("c01gen_" + kind)
     spool = os.path.join(wd, "beh.spool")
     res = tlc.run("ExprGen", cfg, simulate=simulate, depth=depth, seed=ctx.seed if simulate else None,
-                  spool=spool, tag="c01" + kind, timeout=3000)
+                  spool=spool, tag="c01" + kind, timeout=3000, workers=workers)
     ctx.add_tlc(res, "G:" + cfg)
     chunks = tlc.spool_chunks(spool, 64)
     offset = ctx.seed % stride if stride > 1 else 0
     jobs = [(spool, lo, hi, ctx.seed, stride, offset, base, list(thresholds)) for lo, hi in chunks]
     traces = []
-    with mp.Pool(min(tlc.NCPU, max(1, len(jobs)))) as pool:
+    with mp.Pool(min(tlc.NCPU if workers is None else 6, max(1, len(jobs)))) as pool:
         for out in pool.imap_unordered(_replay_chunk, jobs):
             traces.extend(out)
     tlc.cleanup(wd)
@@ -133,17 +133,21 @@ def run(ctx, prop):
     ctx.assume("signedness of < <= > >= ** / % is read from the flags the operand objects show when the operator "
                "is applied; mixed flags (other than a constant with a clear top bit) evaluate to Unknown = outside the claim")
     ctx.assume("specs/lib/BitVec.tla is anchored to integer arithmetic exhaustively for widths 1..4 only (BitVecMC)")
-    res = tlc.run("BitVecMC", "BitVecMC.cfg", tag="bvmc")
+    hk = hook_start(ctx)   # the recorders (suite under hooks, ISA drivers) run while TLC generates
+    res = tlc.run("BitVecMC", "BitVecMC.cfg", tag="bvmc", workers=2)
     ctx.add_tlc(res, "M:BitVecMC.cfg")
     if quick:
-        tr = generate(ctx, "ExprGenEx1.cfg", "ex1", stride=16, thresholds=(0,))
-        tr += generate(ctx, "ExprGenSim_small.cfg", "simsmall", simulate="num=16", depth=9, thresholds=(0, 4))
-        tr += generate(ctx, "ExprGenMap.cfg", "map", stride=5, thresholds=(0,))
-        tr += generate(ctx, "ExprGenEx2s.cfg", "ex2s", stride=16, thresholds=(0,))
-        tr += generate(ctx, "ExprGenEx3.cfg", "ex3", stride=80, thresholds=(0,))
-        validate(ctx, tr, prop, "small")
-        tb = generate(ctx, "ExprGenSim_big.cfg", "simbig", simulate="num=8", depth=8, thresholds=(0, 6))
-        validate(ctx, tb, prop, "big")
+        specs = [("ExprGenEx1.cfg", "ex1", dict(stride=16, thresholds=(0,))),
+                 ("ExprGenSim_small.cfg", "simsmall", dict(simulate="num=16", depth=9, thresholds=(0, 4))),
+                 ("ExprGenMap.cfg", "map", dict(stride=5, thresholds=(0,))),
+                 ("ExprGenEx2s.cfg", "ex2s", dict(stride=16, thresholds=(0,))),
+                 ("ExprGenEx3.cfg", "ex3", dict(stride=80, thresholds=(0,))),
+                 ("ExprGenSim_big.cfg", "simbig", dict(simulate="num=8", depth=8, thresholds=(0,)))]
+        with mp.pool.ThreadPool(len(specs)) as tp:
+            outs = tp.map(lambda a: generate(ctx, a[0], a[1], workers=4, **a[2]), specs)
+        tr = [t for o in outs[:5] for t in o]
+        tb = outs[5]
+        validate(ctx, tr + tb, prop, "all")
     else:
         tr = generate(ctx, "ExprGenEx1.cfg", "ex1", thresholds=(0, 3))
         validate(ctx, tr, prop, "ex1")
@@ -161,7 +165,7 @@ def run(ctx, prop):
         tb = generate(ctx, "ExprGenSim_big.cfg", "simbig", simulate="num=400", depth=8, thresholds=(0, 6))
         validate(ctx, tb, prop, "big")
     ctx.exhaustive = False
-    hook_traces(ctx, prop)
+    hook_finish(ctx, prop, hk)
 
 
 # ---- code -> spec through the guarded hooks -----------------------------------------------------------
@@ -179,7 +183,7 @@ def _validate_op(args):
                    timeout=6000, xmx="3g", xss="1g")
 
 
-def hook_traces(ctx, prop):
+def hook_start(ctx):
     import subprocess
     import sys
     quick = ctx.tier == "quick"
@@ -193,11 +197,9 @@ def hook_traces(ctx, prop):
     f1 = os.path.join(wd, "suite.ndjson")
     e1 = dict(env)
     e1["AMOCO_VERIF_TRACE"] = f1
-    p = subprocess.run([sys.executable, "-m", "pytest", "-q", "-x", "-p", "harness.c01hook", "-p", "no:cacheprovider",
-                        "--timeout=900", "tests"], cwd=repo, env=e1, stdout=subprocess.PIPE, stderr=subprocess.STDOUT)
-    ctx.note("suite_with_hooks_exit", p.returncode)
-    if os.path.exists(f1):
-        files.append(("suite", f1))
+    psuite = subprocess.Popen([sys.executable, "-m", "pytest", "-q", "-x", "-p", "harness.c01hook", "-p", "no:cacheprovider",
+                               "--timeout=900", "tests"], cwd=repo, env=e1, stdout=subprocess.DEVNULL,
+                              stderr=subprocess.DEVNULL)
     # (2) ISA driver: symbolic execution of decoded instructions, one process per ISA
     procs = []
     n = 150 if quick else 2500
@@ -206,6 +208,15 @@ def hook_traces(ctx, prop):
         procs.append((isa, fk, subprocess.Popen([sys.executable, "-m", "harness.c01hook", fk, str(ctx.seed * 131 + k),
                                                   str(n), isa], cwd=tlc.VERIF, env=env,
                                                  stdout=subprocess.PIPE, stderr=subprocess.DEVNULL)))
+    return {"wd": wd, "files": files, "procs": procs, "psuite": psuite, "f1": f1}
+
+
+def hook_finish(ctx, prop, st):
+    wd, files, procs, psuite, f1 = st["wd"], st["files"], st["procs"], st["psuite"], st["f1"]
+    psuite.wait()
+    ctx.note("suite_with_hooks_exit", psuite.returncode)
+    if os.path.exists(f1):
+        files.append(("suite", f1))
     for isa, fk, pr in procs:
         pr.wait()
         if os.path.exists(fk):
@@ -258,3 +269,7 @@ def hook_traces(ctx, prop):
     ctx.count("hook_events_outside_claim", skipped)
     ctx.sample({"source": "hook event", "event": {k: events[0][k] for k in ("src", "ev", "ops", "res") if k in events[0]}}, cap=8)
     tlc.cleanup(wd)
+
+
+def hook_traces(ctx, prop):
+    hook_finish(ctx, prop, hook_start(ctx))
